@@ -194,6 +194,9 @@ where
                 });
 
                 tokio::select! {
+                    // Check the result first: a call that finished before the deadline
+                    // must not lose to the expired timer when this future is polled late.
+                    biased;
                     result = rx => {
                         // Task completed - unwrap the channel result
                         result.ok()
